@@ -243,7 +243,9 @@ def _stream_spec_strategy(S, cipher_mac=None, comps=("none", "zlib", "zlib@opens
             "msgs": msgs,
         }
 
-    return spec()
+    # every key exchange has its own exchange hash (H covers fresh cookies / ephemeral keys); a repeated
+    # (K, H) would legitimately repeat keys and nonces and make cross-epoch replays valid
+    return spec().filter(lambda sp: len(set(bytes(e["H"]) for e in sp["epochs"])) == len(sp["epochs"]))
 
 
 def _try_record(ctx, spec):
@@ -359,7 +361,7 @@ def run(ctx):
         judge(ctx, stream, pkt.norm_case(plan), frags, _classes(stream, sorted(set("plan:" + o[0] for o in plan)) + ["multi", "multi-ops:%d" % len(plan)]))
 
     if not ctx.unknown:
-        ctx.explore(multi, body2, ctx.scale(2000, 60000), shrink=True, seed_offset=5)
+        ctx.explore(multi, body2, ctx.scale(1500, 60000), shrink=True, seed_offset=5)
 
 
 def replay(ctx, case):
